@@ -12,6 +12,7 @@ import (
 	"github.com/apache/skywalking-banyandb/pkg/logger"
 	"github.com/apache/skywalking-banyandb/pkg/verif/ev"
 	"github.com/apache/skywalking-banyandb/pkg/verif/par"
+	"github.com/apache/skywalking-banyandb/pkg/verif/racep"
 	"github.com/apache/skywalking-banyandb/pkg/verif/sched"
 )
 
@@ -21,6 +22,9 @@ type family struct {
 	Setup     func(sc scenario, seq *int) sched.Harness
 	Name      string
 	Scenarios []scenario
+	// RaceOK: the family's own bookkeeping is guarded by sched.Own, so its thread bodies may run detached in the
+	// free-running -race pass.
+	RaceOK bool
 }
 
 type scenario struct {
@@ -158,6 +162,10 @@ func main() {
 		return
 	}
 	var err error
+	if os.Getenv("VERIF_PHASE") == "race" {
+		racePhase(thorough)
+		return
+	}
 	if wi, wn, ok := par.Worker(); ok {
 		base, err = os.MkdirTemp("/dev/shm", "c05-")
 		if err != nil {
@@ -227,6 +235,7 @@ func main() {
 		r.Sample(map[string]any{"scenario": sc.Name, "threads": sc.Roles, "executions": perScen[sc.Name],
 			"initial_state": "file parts p1,p2 + memory part p3; introducer = introducePart(b4); flush; merge(all file parts); gc after each"})
 	}
+	racep.Pass(r, "c05")
 	r.Set("states", execs)
 	r.Set("transitions", execs)
 	r.Set("traces_validated_against_impl", execs)
@@ -243,6 +252,33 @@ func main() {
 	r.Finish()
 }
 
+// racePhase (the -race build, VERIF_PHASE=race): every scenario's thread bodies run detached as plain goroutines on
+// fresh instances; the race detector's log is read by the parent (racep.Pass).
+func racePhase(thorough bool) {
+	var err error
+	base, err = os.MkdirTemp("/dev/shm", "c05race-")
+	if err != nil {
+		panic(err)
+	}
+	defer os.RemoveAll(base)
+	iters := 25
+	if thorough {
+		iters = 200
+	}
+	var scs []scenario
+	for _, sc := range allScenarios() {
+		if only := ev.Arg("--scenario"); only != "" && only != sc.Name && only != sc.Family+"/"+sc.Name && only != sc.Family {
+			continue
+		}
+		if !familyOf(sc.Family).RaceOK {
+			continue
+		}
+		scs = append(scs, sc)
+	}
+	seq := 0
+	racep.Phase(iters, 6*time.Minute, len(scs), func(i int) sched.Harness { return setup(scs[i], &seq) })
+}
+
 func replay(p string) {
 	b, err := os.ReadFile(p)
 	if err != nil {
@@ -255,6 +291,9 @@ func replay(p string) {
 	if err := json.Unmarshal(b, &a); err != nil {
 		fmt.Println(err)
 		os.Exit(2)
+	}
+	if racep.Replay(b, "c05") {
+		return
 	}
 	base, _ = os.MkdirTemp("/dev/shm", "c05r-")
 	defer os.RemoveAll(base)
